@@ -680,6 +680,11 @@ func (in *Interp) indexRead(elems []value, iv value, signed bool) value {
 
 func (in *Interp) slice(instr *ssa.Slice, x, lo, hi, max value) value {
 	var Len, Cap int
+	if x == nil {
+		if _, isSlice := instr.X.Type().Underlying().(*types.Slice); isSlice {
+			x = []value(nil) // the nil slice
+		}
+	}
 	switch x := x.(type) {
 	case string, *Rope:
 		Len = strConcreteLen(x)
@@ -958,7 +963,7 @@ func doRecover(caller *frame) value {
 			}
 			return iface{t: types.Typ[types.String], v: p.msg}
 		default:
-			panic(fmt.Sprintf("unexpected panic type %T in target call to recover()", p))
+			panic(fmt.Sprintf("unexpected panic type %T in target call to recover(): %v", p, p))
 		}
 	}
 	return iface{}
